@@ -6,6 +6,7 @@ pub mod expr;
 pub mod stmt;
 pub mod decl;
 pub mod config;
+pub mod card;
 
 use crate::explore::{explore, Chooser};
 use crate::lex::*;
